@@ -125,14 +125,16 @@ func verifOptimizerRefusalOK(unopt, opt verifOutcome) bool {
 		return false
 	}
 	var oe *OptimizerError
-	if !errors.As(opt.compErr, &oe) {
+	if !errors.As(opt.compErr, &oe) || oe.Node == nil {
 		return false
 	}
-	// the unoptimised program must fail at run time with the same error
-	if unopt.err == nil {
+	// the reported error must be what the offending constant sub-expression
+	// raises when it is evaluated on its own at run time
+	sub := verifRun("return "+oe.Node.String(), CompilerOptions{NoOptimize: true}, nil)
+	if sub.compErr != nil || sub.err == nil {
 		return false
 	}
-	un, um := verifErrNameMsg(unopt.err)
+	un, um := verifErrNameMsg(sub.err)
 	on, om := verifErrNameMsg(oe.Err)
 	return un == on && um == om
 }
@@ -199,7 +201,6 @@ var verifC01FoldProgs = [...]string{
 func VerifC01Fold() {
 	src := verifC01FoldProgs[verifrt.Param("prog")]
 	verifrt.Known("C01-negzero-constant", verifrt.Param("prog") == 13 || verifrt.Param("prog") == 12)
-	verifrt.Known("C01-fold-rem-zero-panic", verifrt.Param("prog") == 15)
 	verifrt.NoPanic("compile-or-run-panic", func() {
 		verifC01Compare(src, false, "", verifrt.Param("limit"))
 	})
